@@ -9,8 +9,10 @@ use crate::real::*;
 use crate::refmodel::*;
 use crate::universe::*;
 
+/// The space characters of the C12 universes: U+0020 and U+3000, and in the `odd-space`
+/// universes U+00D0 (a SPACE member that is not Unicode White_Space; mecab-ipadic lists it so).
 fn is_space(c: char) -> bool {
-    c == ' ' || c == '\u{3000}'
+    c == ' ' || c == '\u{3000}' || c == '\u{00D0}'
 }
 
 fn normal_form(s: &str) -> String {
@@ -112,6 +114,15 @@ fn u_space(tier: Tier) -> Vec<Universe> {
             row("a", 2 % nl, 2 % nr, 25, "user-a"),
         ]);
         u.name.push_str("/user");
+        out.push(u);
+    }
+    // a SPACE category that also holds a character which is not Unicode White_Space (U+00D0)
+    let n = out.len();
+    for i in (0..n).step_by(5) {
+        let mut u = out[i].clone();
+        u.dict.ranges.push((0xD0, 0xD0, vec![CAT_SPACE]));
+        u.alphabet = vec!['a', 'b', ' ', '\u{00D0}', 'c'];
+        u.name.push_str("/odd-space");
         out.push(u);
     }
     // a category whose name differs from SPACE only in case ("Space", without characters) declared
@@ -368,7 +379,7 @@ pub fn run(tier: Tier) -> i32 {
             });
         }
     }
-    rep.rule = format!("state = (dictionary meeting C12's precondition (half of them with a user lexicon), max_grouping_len, sentence over {{a,b,c,U+0020,U+3000}} of length <= {max_len}); sentences are grouped by space-normal form and every member of a class must yield the same (surface, feature, word cost, ids, total cost, lexicon type) sequence; the first member of each class is also checked against the reference minimum; every sentence is also tokenized on one reused worker, in enumeration order and in reverse order, and must give the fresh-worker tokens; distinct = distinct (dictionary, options, class token sequence)");
+    rep.rule = format!("state = (dictionary meeting C12's precondition (half of them with a user lexicon), max_grouping_len, sentence over {{a,b,c,U+0020,U+3000}} (or U+00D0 as a second, non-White_Space member of SPACE) of length <= {max_len}); sentences are grouped by space-normal form and every member of a class must yield the same (surface, feature, word cost, ids, total cost, lexicon type) sequence; the first member of each class is also checked against the reference minimum; every sentence is also tokenized on one reused worker, in enumeration order and in reverse order, and must give the fresh-worker tokens; distinct = distinct (dictionary, options, class token sequence)");
     rep.bounds = json!({"max_sentence_len": max_len, "universes": us.len()});
     rep.finish(
         st,
